@@ -1,7 +1,7 @@
 import SlipVerif.Model.Num
 import SlipVerif.Driver.Util
 --! namespace: num
-/- line protocol for C05:  num <op> <operand>*   operands: q:<n>[/<d>] | d:<hexbits> | s:<hexbits> -/
+/- line protocol for C05:  num <op> <operand>*   operands: q:<n>[/<d>] | d:<hexbits> | s:<hexbits> | l:<prec>:<n>[/<d>] -/
 namespace SlipVerif.Driver.Num
 open SlipVerif.Num SlipVerif.Driver
 
@@ -10,6 +10,7 @@ def parseOperand (s : String) : Option Rat :=
   | ["q", v] => parseRat? v
   | ["d", h] => (parseHexNat? h).bind ofBits64
   | ["s", h] => (parseHexNat? h).bind ofBits32
+  | ["l", _prec, v] => parseRat? v   -- long-float: exact dyadic value, decoded by the harness
   | _ => none
 
 def showVal (r : Rat) : String := s!"{typeOf r}:{showRat r}"
@@ -38,6 +39,10 @@ def handle (op : String) (args : List String) : String :=
     | "/", xs => exRat (divAll xs)
     | "1+", [a] => okRat (add a 1)
     | "1-", [a] => okRat (sub a 1)
+    | "incf", [a] => okRat (add a 1)
+    | "incf", [a, b] => okRat (add a b)
+    | "decf", [a] => okRat (sub a 1)
+    | "decf", [a, b] => okRat (sub a b)
     | "abs", [a] => okRat (absR a)
     | "floor", [a] => exQR (floorDiv a 1)
     | "floor", [a, b] => exQR (floorDiv a b)
@@ -68,6 +73,7 @@ def handle (op : String) (args : List String) : String :=
         | some is => okRat (lxorAll is)
         | none => showErr .typeErr
     | "lognot", [a] => if a.den = 1 then okRat (lnot a.num) else showErr .typeErr
+    | "LessThan", [a, b] => okBool (lt a b)
     | "<", xs => okBool (chain lt xs)
     | "<=", xs => okBool (chain le xs)
     | ">", xs => okBool (chain gt xs)
